@@ -966,4 +966,110 @@ theorem loadItem_insert_unknown (E : Env) (name : Str) (j : J) (hne : name ≠ n
   | none => rfl
   | some k => simp only [readFields_insert_unknown E k.goName name j (h k).1 (h k).2]
 
+/-! ### the order of the members of a document does not matter -/
+
+def JMembers.toList : JMembers → List (Str × J)
+  | .nil => []
+  | .cons n j r => (n, j) :: JMembers.toList r
+
+def JMembers.ofList : List (Str × J) → JMembers
+  | [] => .nil
+  | (n, j) :: r => .cons n j (JMembers.ofList r)
+
+/-- what one member of an object contributes: the field it is attached to and the value read -/
+def readMember (E : Env) (sn : String) (name : Str) (j : J) : Option (String × FVal) :=
+  match E.rrow sn name with
+  | some row => (readVal E (E.fieldKind sn row.field) row.helper j).map (fun v => (row.field, v))
+  | none =>
+    match E.rrowMap sn name with
+    | some row =>
+      (match j with
+       | .obj ms => (match langPairs ms with | [] => none | ps => some (row.field, .nlv ps))
+       | _ => none)
+    | none => none
+
+theorem readFields_cons_member (E : Env) (sn : String) (name : Str) (j : J) (r : JMembers) :
+    readFields E sn (.cons name j r) =
+      (match readMember E sn name j with
+       | some p => .cons p.1 p.2 (readFields E sn r)
+       | none => readFields E sn r) := by
+  simp only [readFields, readMember]
+  cases E.rrow sn name with
+  | some row =>
+    simp only
+    cases readVal E (E.fieldKind sn row.field) row.helper j <;> simp
+  | none =>
+    simp only
+    cases E.rrowMap sn name with
+    | none => simp
+    | some row =>
+      simp only
+      cases j with
+      | obj ms =>
+        simp only
+        cases langPairs ms <;> simp
+      | _ => simp
+
+theorem readFields_members (E : Env) (sn : String) : ∀ ms : JMembers,
+    readFields E sn ms = Fields.ofList ((JMembers.toList ms).filterMap (fun p => readMember E sn p.1 p.2))
+  | .nil => by simp [readFields, JMembers.toList, Fields.ofList]
+  | .cons name j r => by
+    rw [readFields_cons_member, readFields_members E sn r]
+    simp only [JMembers.toList, List.filterMap_cons]
+    cases readMember E sn name j with
+    | none => rfl
+    | some p => obtain ⟨f, v⟩ := p; simp [Fields.ofList]
+
+theorem get_ofList (l : List (String × FVal)) (f : String) : (Fields.ofList l).get? f = l.lookup f := by
+  induction l with
+  | nil => rfl
+  | cons a r ih =>
+    obtain ⟨n, v⟩ := a
+    simp only [Fields.ofList, Fields.get?, List.lookup]
+    by_cases h : n = f
+    · subst h; simp
+    · have : (f == n) = false := by simpa using Ne.symm h
+      simp [h, this, ih]
+
+theorem lookup_mem_of_nodup {l : List (String × FVal)} (hn : (l.map Prod.fst).Nodup) (f : String) (v : FVal) :
+    l.lookup f = some v ↔ (f, v) ∈ l := by
+  induction l with
+  | nil => simp [List.lookup]
+  | cons a r ih =>
+    obtain ⟨n, w⟩ := a
+    simp only [List.map_cons, List.nodup_cons] at hn
+    by_cases h : f = n
+    · subst h
+      simp only [List.lookup, beq_self_eq_true, Option.some.injEq, List.mem_cons, Prod.mk.injEq, true_and]
+      constructor
+      · intro e; exact Or.inl e.symm
+      · rintro (e | hm)
+        · exact e.symm
+        · exact absurd (List.mem_map.mpr ⟨(f, v), hm, rfl⟩) hn.1
+    · have : (f == n) = false := by simpa using h
+      simp only [List.lookup, this, List.mem_cons, Prod.mk.injEq, h, false_and, false_or]
+      exact ih hn.2
+
+/-- **member order**: two objects with the same members in any order, of which no two are attached to
+the same field, are read to values that hold the same in every field -/
+theorem readFields_perm (E : Env) (sn : String) (ms ms' : JMembers)
+    (hp : (JMembers.toList ms).Perm (JMembers.toList ms'))
+    (hn : (((JMembers.toList ms).filterMap (fun p => readMember E sn p.1 p.2)).map Prod.fst).Nodup)
+    (f : String) : (readFields E sn ms').get? f = (readFields E sn ms).get? f := by
+  rw [readFields_members, readFields_members, get_ofList, get_ofList]
+  have hp' := hp.filterMap (fun p => readMember E sn p.1 p.2)
+  have hn' : (((JMembers.toList ms').filterMap (fun p => readMember E sn p.1 p.2)).map Prod.fst).Nodup :=
+    (hp'.map Prod.fst).nodup_iff.mp hn
+  cases h : ((JMembers.toList ms).filterMap (fun p => readMember E sn p.1 p.2)).lookup f with
+  | some v =>
+    have hm := (lookup_mem_of_nodup hn f v).mp h
+    exact (lookup_mem_of_nodup hn' f v).mpr (hp'.mem_iff.mp hm)
+  | none =>
+    cases h' : ((JMembers.toList ms').filterMap (fun p => readMember E sn p.1 p.2)).lookup f with
+    | none => rfl
+    | some v =>
+      have hm := (lookup_mem_of_nodup hn' f v).mp h'
+      have := (lookup_mem_of_nodup hn f v).mpr (hp'.mem_iff.mpr hm)
+      rw [h] at this; cases this
+
 end APModel.Deep
